@@ -7,7 +7,7 @@ import ast
 from ..core import RuleResult, need
 from ..cfg import cfg_of
 from ..flow import flow_of, path_base
-from ..astutil import src, call_name, returns_of, walk_no_nested
+from ..astutil import src, call_name, returns_of, walk_no_nested, is_name
 from ..macros import macro_index
 from . import macro_rules as mr
 
@@ -238,7 +238,39 @@ def rule_r7(repo):
     return res
 
 
+def rule_r8(repo):
+    """An evaluator that walks down a right-nested conjunction / disjunction by hand
+    (`while c.is_conj(): ...; c = c.arg`) leaves the loop with the last component in `c`.  That component
+    must be looked at: after the loop (or in its else clause), or in each round as `c.arg` in a test that
+    decides acceptance.  Otherwise the last conjunct can be anything - and a term that is no conjunction
+    at all passes with nothing compared."""
+    res = RuleResult('C18.R8', 'a hand-written walk over a nested connective accounts for the component it stops at', floor=3)
+    for f in mr.verit_eval_side_functions(repo):
+        own = list(walk_no_nested(f.node, include_root=False))
+        for w in own:
+            if not isinstance(w, ast.While):
+                continue
+            tnames = {x.id for x in ast.walk(w.test) if isinstance(x, ast.Name)}
+            adv = [st for st in ast.walk(w) if isinstance(st, ast.Assign) and len(st.targets) == 1 and isinstance(st.targets[0], ast.Name) and
+                   isinstance(st.value, ast.Attribute) and is_name(st.value.value, st.targets[0].id) and st.targets[0].id in tnames]
+            for st in adv:
+                v, attr = st.targets[0].id, st.value.attr
+                after = [x for x in own if isinstance(x, ast.Name) and x.id == v and isinstance(x.ctx, ast.Load) and x.lineno > (w.end_lineno or 0)]
+                orelse = [x for o in w.orelse for x in ast.walk(o) if isinstance(x, ast.Name) and x.id == v]
+                deciding = False
+                for i in ast.walk(w):
+                    if isinstance(i, ast.If) and any(isinstance(a, ast.Attribute) and a.attr == attr and is_name(a.value, v) for a in ast.walk(i.test)) and \
+                            any(isinstance(r, ast.Return) for b in i.body for r in ast.walk(b)):
+                        deciding = True
+                ok = bool(after or orelse or deciding)
+                res.add('%s :: %s :: walk(%s = %s.%s)' % (f.module.rel, f.qualname, v, v, attr), ok,
+                        'the component the walk stops at is examined' if ok else
+                        'after `while %s` nothing reads `%s`: the last component is never compared, and a term of another shape passes with '
+                        'nothing compared at all (and_neg accepted the one-literal clause `false`)' % (src(w.test, 40), v), '%s:%d' % (f.module.rel, w.lineno))
+    return res
+
+
 def rules(repo):
     r1 = mr.zip_rule(repo, 'C18.R1', mr.verit_eval_side_functions(repo), floor=9)
     r2 = mr.hyps_rule(repo, 'C18.R2', mr.verit_macros, floor=80)
-    return [r1, r2, rule_r3(repo), rule_r4(repo), rule_r5(repo), rule_r6(repo), rule_r7(repo)]
+    return [r1, r2, rule_r3(repo), rule_r4(repo), rule_r5(repo), rule_r6(repo), rule_r7(repo), rule_r8(repo)]
